@@ -263,59 +263,59 @@ Definition run_case (p : prog) (o : list (nat * bool)) (k : option (nat * nat)) 
   agree strict (changed_model c (of_list v)) real.
 
 (* ---------------------------------------------------------------- pinned shapes *)
-(* The three operations whose code (as pinned, before any repair) is not atomic, transcribed
-   from the translator's output on that tree; used by the C08_*_refuted theorems.  The
-   per-run obligations are evaluated on the traces regenerated from the current source. *)
+(* The three operations whose code, as pinned before the repairs 6d14b1b4 / fe1fba29 / 82a01923,
+   was not atomic: the translator's output on that tree (abd094ce), verbatim, used by the
+   C08_*_refuted theorems; and its output on the repaired tree.  The per-run obligations are
+   evaluated on the traces regenerated from the current source, not on these. *)
 
-(* estimate_parameters_using_expectation_maximisation: EMTrainingSession.__init__ is handed the
-   linker's own core_model_settings and assigns .comparisons and the prior before _train(). *)
+(* estimate_parameters_using_expectation_maximisation: EMTrainingSession.__init__ was handed the
+   linker's own core_model_settings and assigned .comparisons and the prior before _train().
+   Sites: 0 compute_df_concat_with_tf, 1 TypeError (exploding rule), 2 ValueError (m and u both
+   fixed), 3..5 concat_with_tf / blocked pairs / comparison vectors, 6 as_record_dict(limit=1),
+   7 EMTrainingException (no pairs), 8 expectation_maximisation. *)
 Definition em_pinned : prog :=
-  seqs [Sql 0;                                   (* compute_df_concat_with_tf *)
-        Choice 0 (Raise 1) Skip;                 (* exploding rule -> TypeError *)
-        Mut FComparisons false VFresh;           (* core_model_settings.comparisons = filtered *)
-        Mut FPrior false VFresh;                 (* ... .probability_two_random_records_match = adjusted *)
-        Choice 1 (Raise 2) Skip;                 (* both m and u fixed -> ValueError *)
-        Sql 3; Sql 4; Sql 5;                     (* concat_with_tf, blocked pairs, comparison vectors *)
-        Sql 6; Choice 2 (Raise 7) Skip;          (* as_record_dict(limit=1); no pairs -> EMTrainingException *)
-        Sql 8;                                   (* expectation_maximisation *)
-        Mut FLevelTrained true VFresh;           (* trained values go to the session's own copy *)
-        Mut FCoreModel false VFresh;             (* swap in *)
-        Mut FSessions false VFresh; Mut FLevelMU false VFresh].
+  (seqs [(Sql 0); (Choice 0 (Raise 1) (seqs [(Mut FComparisons false VFresh);
+    (Mut FPrior false VFresh); (Choice 2 (seqs [(Choice 1 (Raise 2) Skip); (Sql 3); (Sql 4);
+    (Sql 5)]) Skip); (Sql 6); (Choice 3 (Raise 7) (seqs [(Sql 8);
+    (Loop 9 (Loop 8 (seqs [(Choice 5 (Choice 4 (Mut FLevelTrained true VFresh) (Mut FLevelTrained true VFresh)) Skip);
+    (Choice 7 (Choice 6 (Mut FLevelTrained true VFresh) (Mut FLevelTrained true VFresh)) Skip)])))]));
+    (Mut FCoreModel false VFresh); (Mut FSessions false VFresh); (Save 0 FComparisons);
+    (Loop 13 (Loop 12 (seqs [(Choice 10 (Mut FLevelMU false VFresh) Skip);
+    (Choice 11 (Mut FLevelMU false VFresh) Skip)])));
+    (Choice 14 (Mut FPrior false VFresh) Skip)]))]).
 
-(* the repaired shape: the session works on a copy *)
+(* repaired: the session works on its own copy (the two writes become private) *)
 Definition em_fixed : prog :=
-  seqs [Sql 0; Choice 0 (Raise 1) Skip;
-        Mut FComparisons true VFresh; Mut FPrior true VFresh;
-        Choice 1 (Raise 2) Skip; Sql 3; Sql 4; Sql 5; Sql 6; Choice 2 (Raise 7) Skip; Sql 8;
-        Mut FLevelTrained true VFresh; Mut FCoreModel false VFresh;
-        Mut FSessions false VFresh; Mut FLevelMU false VFresh].
+  (seqs [(Sql 0); (Choice 0 (Raise 1) (seqs [(Mut FComparisons true VFresh);
+    (Mut FPrior true VFresh); (Choice 2 (seqs [(Choice 1 (Raise 2) Skip); (Sql 3); (Sql 4);
+    (Sql 5)]) Skip); (Sql 6); (Choice 3 (Raise 7) (seqs [(Sql 8);
+    (Loop 9 (Loop 8 (seqs [(Choice 5 (Choice 4 (Mut FLevelTrained true VFresh) (Mut FLevelTrained true VFresh)) Skip);
+    (Choice 7 (Choice 6 (Mut FLevelTrained true VFresh) (Mut FLevelTrained true VFresh)) Skip)])))]));
+    (Mut FCoreModel false VFresh); (Mut FSessions false VFresh); (Save 0 FComparisons);
+    (Loop 13 (Loop 12 (seqs [(Choice 10 (Mut FLevelMU false VFresh) Skip);
+    (Choice 11 (Mut FLevelMU false VFresh) Skip)])));
+    (Choice 14 (Mut FPrior false VFresh) Skip)]))]).
 
 (* find_matches_to_new_records: temporary blocking rules restored on the success path only *)
 Definition find_matches_pinned : prog :=
-  seqs [Save 0 FBlockingRules; Save 1 FLinkType;
-        Choice 0 (Sql 0) Skip;                   (* register_table *)
-        Sql 1;                                   (* compute_df_concat_with_tf *)
-        Mut FBlockingRules false VFresh;
-        Sql 2; Sql 3;
-        Restore FBlockingRules 0; Restore FLinkType 1;
-        Sql 4].                                  (* drop blocked pairs *)
+  (seqs [(Save 0 FBlockingRules); (Save 1 FLinkType); (Choice 0 (Sql 0) Skip); (Sql 1);
+    (Mut FBlockingRules false VFresh); (Sql 2); (Sql 3); (Sql 4); (Sql 5); (Sql 6);
+    (Restore FBlockingRules 0); (Restore FLinkType 1); (Sql 7)]).
 
 Definition find_matches_fixed : prog :=
-  seqs [Save 0 FBlockingRules; Save 1 FLinkType;
-        Choice 0 (Sql 0) Skip; Sql 1;
-        Try (seqs [Mut FBlockingRules false VFresh; Sql 2; Sql 3])
-            (seqs [Restore FBlockingRules 0; Restore FLinkType 1]);
-        Sql 4].
+  (seqs [(Save 0 FBlockingRules); (Save 1 FLinkType); (Try (seqs [(Choice 0 (Sql 0) Skip); (Sql 1);
+    (Mut FBlockingRules false VFresh); (Sql 2); (Sql 3); (Sql 4); (Sql 5); (Sql 6);
+    (Sql 7)]) (seqs [(Restore FBlockingRules 0); (Restore FLinkType 1)]))]).
 
 (* compare_two_records: _retain_* flags forced to True, restored on the success path only *)
 Definition compare_two_pinned : prog :=
-  seqs [Save 0 FRetainMatching; Save 1 FRetainIntermediate;
-        Mut FRetainMatching false (VConst 1); Mut FRetainIntermediate false (VConst 1);
-        Sql 0; Sql 1; Sql 2;
-        Restore FRetainMatching 0; Restore FRetainIntermediate 1].
+  (seqs [(Save 0 FRetainMatching); (Save 1 FRetainIntermediate);
+    (Mut FRetainMatching false (VConst 1)); (Mut FRetainIntermediate false (VConst 1)); (Sql 0);
+    (Sql 1); (Sql 2); (Sql 3); (Sql 4); (Sql 5); (Sql 6); (Restore FRetainMatching 0);
+    (Restore FRetainIntermediate 1)]).
 
 Definition compare_two_fixed : prog :=
-  seqs [Save 0 FRetainMatching; Save 1 FRetainIntermediate;
-        Try (seqs [Mut FRetainMatching false (VConst 1); Mut FRetainIntermediate false (VConst 1);
-                   Sql 0; Sql 1; Sql 2])
-            (seqs [Restore FRetainMatching 0; Restore FRetainIntermediate 1])].
+  (seqs [(Save 0 FRetainMatching); (Save 1 FRetainIntermediate);
+    (Try (seqs [(Mut FRetainMatching false (VConst 1)); (Mut FRetainIntermediate false (VConst 1));
+    (Sql 0); (Sql 1); (Sql 2); (Sql 3); (Sql 4); (Sql 5);
+    (Sql 6)]) (seqs [(Restore FRetainMatching 0); (Restore FRetainIntermediate 1)]))]).
